@@ -447,7 +447,12 @@ pub fn load_and_judge(seed: u64, which: &str) -> (Layout, Vec<(String, String)>)
             out.push(("dram-below-image-modified".into(), format!("DRAM byte {:06x} below the load base is {:02x}", DRAM_LO as usize + k, d[k])));
         }
         // DRAM above the image: zero except the argument block [er1 .. er1 + table + strings)
-        let arg_lo = (e.tcb_end - DRAM_LO) as usize;
+        // the argument block starts where ER1 points (anywhere at or above stack end + 88-byte TCB is
+        // legal for C11's purposes; its exact position is C12's business) and extends over the
+        // pointer table and the strings
+        let er1 = cpu.er[1];
+        let arg_start = if er1 >= e.stack_end + 88 && ((er1 - DRAM_LO) as usize) < DRAM_SIZE { er1 } else { e.tcb_end };
+        let arg_lo = (arg_start - DRAM_LO) as usize;
         let arg_len: usize = 4 * (e.words.len() + 1) + e.words.iter().map(|w| w.len() + 1).sum::<usize>();
         if let Some(k) = (img_hi..arg_lo.min(DRAM_SIZE)).find(|k| d[*k] != 0) {
             out.push((format!("dram-above-image-modified{}", ctx), format!("DRAM byte {:06x} between image and argument block is {:02x}", DRAM_LO as usize + k, d[k])));
@@ -471,7 +476,10 @@ pub fn load_and_judge(seed: u64, which: &str) -> (Layout, Vec<(String, String)>)
         c("er5-got", cpu.er[5], e.er5, &mut out);
         c("er7-stack-pointer", cpu.er[7], e.er7, &mut out);
         c("er0-argc", cpu.er[0], e.er0, &mut out);
-        c("er1-argv", cpu.er[1], e.er1, &mut out);
+        // ER1: the property fixes the order image < stack < 88-byte TCB < argument block, not the gap
+        if cpu.er[1] < e.stack_end + 88 || cpu.er[1] & 3 != 0 || cpu.er[1] >= DRAM_LO + DRAM_SIZE as u32 {
+            out.push((format!("er1-argv{}", ctx), format!("ER1 = {:#x}: the argument block must start (4-byte aligned, in DRAM) at or above stack end {:#x} + 88-byte TCB", cpu.er[1], e.stack_end)));
+        }
         c("exit-address", cpu.exit_addr, e.exit_addr, &mut out);
         // argv through the pointers the program will actually use
         let argv = cpu.er[1];
